@@ -13,7 +13,7 @@ for p in props:
           "evidence_file": f"/verif/evidence/{pid}.json",
           "replay_cmd_template": f"./check {pid} --replay {{path}}",
           "engine": "lean4-model+correspondence",
-          "level_claimed": {"category": "proof", "text": b["text"], "design_ref": b.get("design_ref","DESIGN.md §7 "+pid)},
+          "level_claimed": {"category": b.get("category","proof"), "text": b["text"], "design_ref": b.get("design_ref","DESIGN.md §7 "+pid)},
           "level_note": b["note"],
           "technique": b["technique"],
         })
